@@ -32,6 +32,9 @@ type cancelSpec struct {
 	Nested bool `json:"nested,omitempty"`
 	// Shared (with Nested): two stages of the outer pipeline include it, so two scheduling loops work on it
 	Shared bool `json:"included_twice,omitempty"`
+	// Prelude: a run that fails before it really begins (unknown context / failing context up / failing context
+	// before-hook) on the same runner, before the scenario
+	Prelude string `json:"prelude,omitempty"`
 	// TaskTimeout: the tasks carry a (long) timeout of their own
 	TaskTimeout bool `json:"task_timeout,omitempty"`
 }
@@ -184,6 +187,10 @@ func c12(c *h.Ctx) {
 				add(cancelSpec{K: k, W: len(specs) % 2, Mode: mode, Point: "during-command", Cancels: "once", Via: via, Cmd: cmd, Interactive: true})
 			}
 		}
+	}
+	for pi, pre := range []string{"unknown-context", "up-fails", "before-fails"} {
+		add(cancelSpec{K: 1 + pi%2, W: 0, Mode: "direct", Point: "during-command", Cancels: "once", Via: "runner", Cmd: "sleep", Prelude: pre})
+		add(cancelSpec{K: pi % 2, W: 1, Mode: "pipeline", Point: []string{"after-finished", "during-command", "cond-error"}[pi], Cancels: "once", Via: []string{"scheduler", "scheduler", "cond"}[pi], Cmd: "sleep", Prelude: pre})
 	}
 	// the task's own condition is a running command too
 	for _, mode := range []string{"direct", "pipeline"} {
